@@ -76,7 +76,8 @@ IntervalCall(c) ==
 
 Next == /\ l <= Len(Tr.calls)
         /\ LET c == Tr.calls[l] IN
-           IF c.outcome # "ret" THEN Ck("fault.atomic", c.values = c.values_before)
+           \* "err": the call raised although no fault was injected
+           IF c.outcome # "ret" THEN Ck("fault.atomic", c.values = c.values_before) /\ Ck("batch.no_exception", c.outcome # "err" \/ Len(c.rows) = 0)
            ELSE IF Tr.cls = "interval" THEN IntervalCall(c)
            \* every BatchSage entry point computes an explanation of the data it was given (model and loss are evaluated)
            ELSE Ck("batch.explains", Len(c.rows) > 0 => (c.nmodel > 0 /\ c.nloss > 0)) /\ (c.recomputed => Explained(c))
